@@ -3,6 +3,7 @@
 use crate::model::NullEngine;
 use reed_solomon_simd::engine::Engine;
 use reed_solomon_simd::rate::*;
+use reed_solomon_simd::rate::{DecoderWork, EncoderWork};
 use reed_solomon_simd::{DecoderResult, EncoderResult, Error, ReedSolomonDecoder, ReedSolomonEncoder};
 
 pub trait Enc: Sized {
@@ -157,5 +158,191 @@ pub fn truthful_config_error(e: Error, o: usize, r: usize, s: usize, side: u8) -
         }
         Error::InvalidShardSize { shard_bytes } => shard_bytes == s && (s == 0 || s % 2 == 1),
         _ => false,
+    }
+}
+
+// ----------------------------------------------------------------------
+// state snapshots through the read-only hook views
+
+use reed_solomon_simd::verif_hooks::{DecoderWorkView, EncoderWorkView};
+
+/// byte-by-byte comparison with nested loops (a flat memcmp over the whole
+/// working memory would need an unwinding bound of its size)
+pub fn data_eq(a: &[[u8; 64]], b: &[[u8; 64]]) -> bool {
+    if a.len() != b.len() {
+        return false;
+    }
+    let mut ok = true;
+    let mut i = 0;
+    while i < a.len() {
+        let mut j = 0;
+        while j < 64 {
+            if a[i][j] != b[i][j] {
+                ok = false;
+            }
+            j += 1;
+        }
+        i += 1;
+    }
+    ok
+}
+
+fn sv_eq(a: &reed_solomon_simd::verif_hooks::ShardsView, b: &reed_solomon_simd::verif_hooks::ShardsView, ptrs: bool) -> bool {
+    a.shard_count == b.shard_count && a.shard_len_64 == b.shard_len_64 && a.data_len == b.data_len
+        && (!ptrs || (a.data_ptr == b.data_ptr && a.data_capacity == b.data_capacity))
+}
+
+impl EncSnap {
+    /// `ptrs`: also compare buffer addresses and capacities (same object) or not (twin objects)
+    pub fn same(&self, o: &Self, ptrs: bool) -> bool {
+        let views = match (&self.view, &o.view) {
+            (Some(a), Some(b)) => {
+                a.original_count == b.original_count && a.recovery_count == b.recovery_count && a.shard_bytes == b.shard_bytes
+                    && a.original_received_count == b.original_received_count && sv_eq(&a.shards, &b.shards, ptrs)
+            }
+            (None, None) => true,
+            _ => false,
+        };
+        self.present == o.present && views && self.is_high == o.is_high && data_eq(&self.data, &o.data)
+    }
+}
+impl DecSnap {
+    pub fn same(&self, o: &Self, ptrs: bool) -> bool {
+        let views = match (&self.view, &o.view) {
+            (Some(a), Some(b)) => {
+                a.original_count == b.original_count && a.recovery_count == b.recovery_count && a.shard_bytes == b.shard_bytes
+                    && a.original_base_pos == b.original_base_pos && a.recovery_base_pos == b.recovery_base_pos
+                    && a.original_received_count == b.original_received_count && a.recovery_received_count == b.recovery_received_count
+                    && a.received_len == b.received_len && (!ptrs || a.received_ptr == b.received_ptr) && sv_eq(&a.shards, &b.shards, ptrs)
+            }
+            (None, None) => true,
+            _ => false,
+        };
+        let mut rec = true;
+        let mut i = 0;
+        while i < 16 {
+            if self.received[i] != o.received[i] {
+                rec = false;
+            }
+            i += 1;
+        }
+        self.present == o.present && views && self.is_high == o.is_high && rec && data_eq(&self.data, &o.data)
+    }
+}
+
+#[derive(Debug, Clone)]
+pub struct EncSnap {
+    pub present: bool,
+    pub view: Option<EncoderWorkView>,
+    pub is_high: Option<bool>,
+    pub data: Vec<[u8; 64]>,
+}
+
+#[derive(Debug, Clone)]
+pub struct DecSnap {
+    pub present: bool,
+    pub view: Option<DecoderWorkView>,
+    pub is_high: Option<bool>,
+    pub received: [bool; 16],
+    pub data: Vec<[u8; 64]>,
+}
+
+pub trait EncState {
+    fn snap(&self) -> EncSnap;
+}
+pub trait DecState {
+    fn snap(&self) -> DecSnap;
+}
+
+/// For codecs whose state lives in an enum payload (DefaultRate*), CBMC does
+/// not see the buffer length as a constant; the harness then declares the
+/// expected number of blocks and the copy loops over exactly that many.
+pub static mut SNAP_BLOCKS: usize = 0;
+pub fn set_snap_blocks(n: usize) {
+    unsafe {
+        SNAP_BLOCKS = n;
+    }
+}
+
+/// Working memory is compared through ONE byte at a nondeterministic
+/// (block, byte) position chosen once per harness: the solver quantifies over
+/// the position, so equality of that byte before/after is equality of every
+/// byte - without copying the memory.
+pub static mut PROBE: Option<(usize, usize)> = None;
+pub fn probe_pos() -> (usize, usize) {
+    unsafe {
+        if PROBE.is_none() {
+            let blk: usize = crate::k::any();
+            let byte: usize = crate::k::any();
+            crate::k::assume(blk < 64 && byte < 64);
+            PROBE = Some((blk, byte));
+        }
+        PROBE.unwrap()
+    }
+}
+
+fn copy_data(d: &[[u8; 64]], _fixed: bool) -> Vec<[u8; 64]> {
+    // (len, probed byte) packed into one pseudo block
+    let (blk, byte) = probe_pos();
+    let mut v = [0u8; 64];
+    let n = d.len();
+    v[0] = n as u8;
+    v[1] = (n >> 8) as u8;
+    if blk < n {
+        v[2] = 1;
+        v[3] = d[blk][byte];
+    }
+    vec![v]
+}
+
+fn enc_snap(w: Option<&EncoderWork>, is_high: Option<bool>, fixed: bool) -> EncSnap {
+    match w {
+        Some(w) => EncSnap { present: true, view: Some(w.verif_view()), is_high, data: copy_data(w.verif_data(), fixed) },
+        None => EncSnap { present: false, view: None, is_high, data: Vec::new() },
+    }
+}
+fn dec_snap(w: Option<&DecoderWork>, is_high: Option<bool>, fixed: bool) -> DecSnap {
+    match w {
+        Some(w) => {
+            let mut received = [false; 16];
+            let mut i = 0;
+            while i < 16 {
+                received[i] = w.verif_received(i);
+                i += 1;
+            }
+            DecSnap { present: true, view: Some(w.verif_view()), is_high, received, data: copy_data(w.verif_data(), fixed) }
+        }
+        None => DecSnap { present: false, view: None, is_high, received: [false; 16], data: Vec::new() },
+    }
+}
+
+impl<E: Engine> EncState for HighRateEncoder<E> {
+    fn snap(&self) -> EncSnap {
+        enc_snap(Some(self.verif_work()), Some(true), false)
+    }
+}
+impl<E: Engine> EncState for LowRateEncoder<E> {
+    fn snap(&self) -> EncSnap {
+        enc_snap(Some(self.verif_work()), Some(false), false)
+    }
+}
+impl<E: Engine> EncState for DefaultRateEncoder<E> {
+    fn snap(&self) -> EncSnap {
+        enc_snap(self.verif_work(), self.verif_is_high(), true)
+    }
+}
+impl<E: Engine> DecState for HighRateDecoder<E> {
+    fn snap(&self) -> DecSnap {
+        dec_snap(Some(self.verif_work()), Some(true), false)
+    }
+}
+impl<E: Engine> DecState for LowRateDecoder<E> {
+    fn snap(&self) -> DecSnap {
+        dec_snap(Some(self.verif_work()), Some(false), false)
+    }
+}
+impl<E: Engine> DecState for DefaultRateDecoder<E> {
+    fn snap(&self) -> DecSnap {
+        dec_snap(self.verif_work(), self.verif_is_high(), true)
     }
 }
